@@ -265,10 +265,21 @@ fn tok_profile(profile: &str, seed: u64, n: usize, out: &mut dyn Write) {
                             0 | 1 => {
                                 // user lexicon
                                 let mut pool = d.surfaces.clone();
-                                let bad = crng.chance(1, 8);
-                                let nl = if bad { d.num_left + 1 } else { d.num_left };
+                                // out-of-range ids on either side, also in the gap between the two dimensions of a non-square
+                                // connector (a right id below the number of LEFT ids and vice versa)
+                                let bad = crng.chance(1, 6);
+                                let (nl, nr) = if !bad {
+                                    (d.num_left, d.num_right)
+                                } else {
+                                    match crng.below(4) {
+                                        0 => (d.num_left + 1, d.num_right),
+                                        1 => (d.num_left, d.num_right + 1),
+                                        2 => (d.num_left, d.num_left.max(d.num_right + 1)),
+                                        _ => (d.num_right.max(d.num_left + 1), d.num_right),
+                                    }
+                                };
                                 let nrows = 1 + crng.below(4);
-                                let mut csv = gen::gen_lex_rows(&mut crng, nrows, nl, d.num_right, 40, true, &mut pool);
+                                let mut csv = gen::gen_lex_rows(&mut crng, nrows, nl, nr, 40, true, &mut pool);
                                 if crng.chance(1, 6) {
                                     // structural rows (empty surface, short row, lone quote …), mostly at the end
                                     let rows = [",0,0,0,x", ",0,0,0,", "", ",", "a,0", "a,0,0,0", ",0,0", "\"a", ",1"];
